@@ -7,10 +7,17 @@ SITE = "mlmodel.IntervalRegressor"
 ALPHAS = [(1, 4), (1, 2), (3, 4), (1, 1), (3, 2), (2, 1)]
 
 
+class HalfReg(stubs.RecReg):
+    """RecReg + 1/2: individual predictions are not integers, so a result container of the query's dtype shows"""
+
+    def predict(self, X):
+        return stubs.RecReg.predict(self, X) + 0.5
+
+
 def one_trace(tid, n, m, a, b, weighted, n_jobs, seed, probes):
     from mlinsights.mlmodel import IntervalRegressor
     y = [10 + 3 * i + (i * i) % 5 for i in range(n)]
-    w = [1 + (i % 3) for i in range(n)]
+    w = [(i + 1) % 3 for i in range(n)]          # weights 1, 2, 0, 1, 2, 0, ...: rows of weight 0 are rows too
     X = numpy.array([[i, (7 * i) % 5] for i in range(n)], dtype=numpy.float64)
     ya = numpy.array(y, dtype=numpy.float64)
     wa = numpy.array(w, dtype=numpy.float64) if weighted else None
@@ -25,7 +32,7 @@ def one_trace(tid, n, m, a, b, weighted, n_jobs, seed, probes):
         return out
 
     del stubs.LOG[:]
-    model = IntervalRegressor(stubs.RecReg(), n_estimators=m, alpha=a / b, n_jobs=n_jobs)
+    model = IntervalRegressor(HalfReg(), n_estimators=m, alpha=a / b, n_jobs=n_jobs)
     numpy.random.seed(seed)
     numpy.random.randint = rec
     err = None
@@ -52,11 +59,11 @@ def one_trace(tid, n, m, a, b, weighted, n_jobs, seed, probes):
     ev.append(dict(a="fitted", m=len(model.estimators_)))
     t["returns_self"] = ret is model
     t["untouched"] = bool(numpy.array_equal(X, X0) and numpy.array_equal(ya, y0))
-    for x in probes:
-        Xq = numpy.array([[x, 0.0]])
-        al = model.predict_all(Xq)[0]
-        pm = model.predict(Xq)[0] * m
-        ps = model.predict_sorted(Xq)[0]
+    for x, dt in zip(probes, (numpy.float64, numpy.int64, numpy.float32, numpy.int32)):
+        Xq = numpy.array([[x, 0]], dtype=dt)        # the query's dtype is the caller's business
+        al = model.predict_all(Xq)[0] - 0.5
+        pm = model.predict(Xq)[0] * m - 0.5 * m
+        ps = model.predict_sorted(Xq)[0] - 0.5
         ok = lambda v: abs(v - round(v)) < 1e-6
         ev.append(dict(a="predict", x=x, all=[int(round(v)) if ok(v) else -999999 for v in al],
                        mean_m=int(round(pm)) if ok(pm) else -999999,
